@@ -139,7 +139,9 @@ def stage(module, extract=True, exe=False):
 def broken_decls(log):
     """Map `file:line:col: error` lines to the enclosing theorem/def names."""
     out = []
-    for m in re.finditer(r'^(?:error: )?(\S+\.lean):(\d+):(\d+): error', log, flags=re.M):
+    for m in re.finditer(r'^(?:error: )?(\S+\.lean):(\d+):(\d+):(?: error)?', log, flags=re.M):
+        if not (m.group(0).startswith('error') or m.group(0).rstrip().endswith('error')):
+            continue
         path, line = m.group(1), int(m.group(2))
         full = path if os.path.isabs(path) else os.path.join(LEAN, path)
         name = None
